@@ -1,22 +1,4 @@
 ------------------------------ MODULE MC_GenE1 ------------------------------
-(* Scope E1 of DESIGN.md section C01: EDB e/2, f/1; IDB p/1, q/1; variables X, Y. *)
-EXTENDS ProgGen
-
-X == Var("X")
-Y == Var("Y")
-A(p, args) == [p |-> p, a |-> args]
-E1Heads == {A("p", <<X>>), A("q", <<X>>), A("q", <<Y>>)}
-E1Lits ==
-  { <<"pos", A("e", <<X, Y>>)>>, <<"pos", A("e", <<Y, X>>)>>, <<"pos", A("e", <<X, X>>)>>,
-    <<"pos", A("f", <<X>>)>>, <<"pos", A("p", <<X>>)>>, <<"pos", A("p", <<Y>>)>>,
-    <<"pos", A("q", <<X>>)>>, <<"pos", A("q", <<Y>>)>>,
-    <<"neg", A("p", <<X>>)>>, <<"neg", A("q", <<X>>)>>, <<"neg", A("f", <<X>>)>>,
-    <<"ne", X, Y>> }
-E1Transforms == {<<"none">>}
-N1 == Num(1)
-N2 == Num(2)
-N3 == Num(3)
-E1Edbs ==
-  { {A("e", <<N1, N2>>), A("e", <<N2, N3>>), A("f", <<N1>>)},
-    {A("e", <<N1, N1>>), A("e", <<N1, N2>>), A("e", <<N2, N1>>), A("f", <<N2>>)} }
+(* Scope E1 of DESIGN.md section C01 as an instance of the program grammar machine. *)
+EXTENDS ProgGen, VocabE1
 =============================================================================
